@@ -726,6 +726,7 @@ func (r *yieldRewriter) rewriteReturnAndForSwitchInitStmtInYieldFun(body *ast.Bl
 //
 //	x, y := e1, e2 // x declared earlier in the same block
 //	=>
+//	ɐ := x
 //	ɐ, y := e1, e2
 //	x = ɐ
 func (r *yieldRewriter) rewriteRedeclaration(c *astutil.Cursor, n *ast.AssignStmt) {
@@ -743,6 +744,11 @@ func (r *yieldRewriter) rewriteRedeclaration(c *astutil.Cursor, n *ast.AssignStm
 		n.Lhs[i] = tmp
 		lhs = append(lhs, id)
 		rhs = append(rhs, tmp)
+		if c.Index() >= 0 {
+			// the temporary takes the type of x, untyped constant is converted as in the source
+			// e.g., var x float64; x, y := 1, 2
+			c.InsertBefore(X.Define(tmp, X.Ident(id.Name)))
+		}
 	}
 	if len(lhs) > 0 && c.Index() >= 0 {
 		c.InsertAfter(&ast.AssignStmt{Lhs: lhs, Tok: token.ASSIGN, Rhs: rhs})
